@@ -9,14 +9,14 @@ DEV_NOTE = ("device semantics = specs/dev/*.tla; renderer/cmdparse of the harnes
 DEV_TECH = "TLC-enumerated input universes + TLA+ trace validation of real planner scripts on the device spec"
 
 CHECKS = {
- "C01": ("model_checking", "TLC enumerates (device, target) pairs of the ASA universes (line edits, object-groups renamed/shared/duplicated/split, shared ACLs, routes, unmanaged overlay); the real planner's script is executed on the ASA device specification by TLC, which checks Equivalent(dev, target) at the end, that the planner's second plan on the rendered final state is empty and that an empty script only occurs for an equivalent device.", DEV_NOTE, DEV_TECH, "§7 C01"),
- "C02": ("model_checking", "Same construction on the IOS device specification (sequence numbers, resequence, numbered inserts/deletes, interface bindings, VRFs): final state block-canonically equivalent, second plan empty.", DEV_NOTE, DEV_TECH, "§7 C02"),
+ "C01": ("model_checking", "TLC enumerates (device, target) pairs of the ASA universes (line edits, object-groups renamed/shared/duplicated/split, shared ACLs, routes, unmanaged overlay, long ACLs as a seeded TLC random sample) and of the ASA VPN object graph AsaV.tla (users, group-policies, tunnel-groups, certificate maps, pools, filter ACLs; crypto maps with entries matched by peer, crypto ACLs and transform-sets); the real planner's script is executed on the ASA device specification by TLC, which checks Equivalent(dev, target) at the end, that the planner's second plan on the rendered final state is empty and that an empty script only occurs for an equivalent device.", DEV_NOTE, DEV_TECH, "§7 C01"),
+ "C02": ("model_checking", "Same construction on the IOS device specification (sequence numbers, resequence, numbered inserts/deletes, interface bindings, VRFs, crypto map entries matched by peer with in/out filter ACLs): final state block-canonically equivalent, second plan empty.", DEV_NOTE, DEV_TECH, "§7 C02"),
  "C07": ("model_checking", "Frame invariant of AsaTrace/IosTrace evaluated after every command of every real script on universes crossed with unmanaged overlays (unbound hand-named ACLs, ACLs of unknown interfaces, unmanaged VRFs, foreign groups shared with managed ACLs, routes of unspecified families).", DEV_NOTE, DEV_TECH, "§7 C07"),
  "C08": ("model_checking", "Every command of every real script is executed by the device specification, whose guards encode 'the device accepts this command now' (referenced objects exist, nothing referenced is deleted, no duplicate ACL line, line/sequence numbers address the intended position, sub-commands in the mode of their parent).", DEV_NOTE, DEV_TECH, "§7 C08"),
  "C10": ("model_checking", "For sampled pairs and EVERY cut position k of the emitted script (also between the halves of a joined entry and inside sub-modes) the device state after k commands is rendered, the real planner is run again from it, the combined trace is validated: no guard failure, Equivalent at the end, third plan empty.", DEV_NOTE, DEV_TECH, "§7 C10"),
  "C13": ("model_checking", "TLC model-checks the transcription of pkg/status and missing-approve (Status.tla) against NeverForgets/Omits on all event sequences up to the bound; TLC-generated behaviours (every transition out of every abstract model state up to a depth, plus random walks) are replayed against the real status package and missing-approve binary and the recorded traces are validated by StatusTrace.tla, the verdict being taken on the observed listing.", "strictly increasing clock; status updates driven through status.SetApprove/SetCompare; bounded depth", "TLA+ model checking (TLC) + trace validation of replayed behaviours", "§7 C13"),
  "C16": ("exploration", "TLC-enumerated inputs whose generator predicate HasTie holds (several identical object-groups on the device, equally good matches) and ordinary inputs are planned repeatedly in separate processes (12 resp. 4 runs); DetTrace.tla requires every run to equal the first (exit status, stdout, stderr). Determinism over all map orders is sampled, not enumerated.", DEV_NOTE, "TLC-enumerated tie-bearing inputs + repeated real planner runs validated by DetTrace.tla", "§7 C16"),
- "C14": ("model_checking", "StepSafe (every packet on which old and new ACL agree keeps its verdict; every destination routed before and after stays routed) is evaluated by TLC after every complete entry of every real ASA/IOS script on the group-free universes; failing steps are classified by model-checked shapes (H2, K2, IosSharedAcl) and anything outside them is a violation.", DEV_NOTE, DEV_TECH, "§7 C14"),
+ "C14": ("model_checking", "StepSafe (every packet on which old and new ACL agree keeps its verdict; every destination routed before and after stays routed) is evaluated by TLC after every complete entry of every real ASA/IOS script on the group-free universes; failing steps are classified by model-checked shapes (H2, H3, K2, IosSharedAcl) and anything outside them is a violation.", DEV_NOTE, DEV_TECH, "§7 C14"),
 }
 
 SESS_NOTE = ("device side = harness simulators consim/httpsim through the repository's own SIMULATE_ROUTER seam (mode-aware, classify every "
@@ -24,7 +24,7 @@ SESS_NOTE = ("device side = harness simulators consim/httpsim through the reposi
 SESS_TECH = "TLC model check of Session.tla + TLA+ trace validation of simulator transcripts of real sessions (every fault position x kind)"
 CHECKS.update({
  "C06": ("model_checking", "Session.tla (intended executor protocol) is model-checked for all scenarios; every fault-free approve scenario TLC enumerates (5 types x drc/do-approve x hostname x marker present/absent/unconfigured x HA x pending changes) is replayed as a real session against the stateful simulator of that type and the transcript is validated by SessionTrace.tla: no change/save command reaches a wrong, unmanaged or passive device, non-zero exit with diagnostic; a good device is approved normally.", SESS_NOTE, SESS_TECH, "§7 C06"),
- "C09": ("model_checking", "For every scenario a fault of every kind (reject, unexpected output, stall, close; HTTP status, malformed, dead connection, no-success, failed commit job, missing [OK]) is injected at EVERY line / request position of the real dialogue; SessionTrace.tla checks on the recorded transcript that nothing but clean-up follows the fault, nothing is saved, exit is non-zero, do-approve records FAILED/DIFF and END: FAILED, and OK only with everything accepted and the save confirmed.", SESS_NOTE, SESS_TECH, "§7 C09"),
+ "C09": ("model_checking", "For every scenario a fault of every kind (reject, warning + reject, unexpected output, stall, close; HTTP status 400/403/404/500/503, malformed, dead connection, no-success, failed commit job, missing [OK]) is injected at EVERY line / request position of the real dialogue; SessionTrace.tla checks on the recorded transcript that nothing but clean-up follows the fault, nothing is saved, exit is non-zero, do-approve records FAILED/DIFF and END: FAILED, and OK only with everything accepted and the save confirmed.", SESS_NOTE, SESS_TECH, "§7 C09"),
  "C11": ("model_checking", "Every compare scenario (drc -C, do-approve compare; all types; with differences; missing marker; wrong name) and every fault position of a compare session is replayed; the simulator's transcript must contain no change and no save/commit (ASA terminal width classified as session setting) and the device-side change counter must stay 0.", SESS_NOTE, SESS_TECH, "§7 C11"),
  "C17": ("fault_enumeration", "The C06/C09 session space (success and every fault kind/position of login and later requests, all five types) is replayed with secrets that have distinct URL-encoded forms; every file below basedir/log directories plus stdout/stderr is byte-scanned for the plain and encoded forms of password, API key, session token and cookie.", SESS_NOTE, "model-enumerated fault scenarios (Session.tla) replayed on real sessions + byte scan for secrets", "§7 C17"),
 })
@@ -42,8 +42,8 @@ CHECKS.update({
 })
 
 CHECKS.update({
- "C05": ("model_checking", "TLC enumerates pairs of Linux states (route sets with several routes per destination, default route switches; rulesets of table filter / mangle with policies, user chains and one abstract rule per option family of the normaliser). Every abstract ruleset is rendered in TWO spellings (Netspoc spelling for the target, iptables-save / `ip route show` spelling for the device); the real planner's `ip route add/del` commands and the emitted iptables-restore file are executed by Linux.tla; LinuxTrace.tla checks: final routes and ruleset equal the target, a difference of rulesets is reported iff the abstract rulesets differ, the kernel-spelled print of the final state compares as unchanged.", DEV_NOTE + "; the spelling tables of vlib/linux.py are an explicit, reviewed part of the trusted base", DEV_TECH, "§7 C05"),
- "C18": ("model_checking", "Merge.tla defines Admissible(result, v4, v6, rawPre, rawApp) (completeness, per-part order, raw before Netspoc, APPEND between the last permitting Netspoc entry and the trailing denies). TLC enumerates all combinations of the parts (incl. no permit line, empty parts) for ASA ACLs (v4+v6+raw), IOS ACLs and Linux chains; the script of the real planner on the EMPTY device is executed by the device specification and the resulting ACL / chain is checked with Admissible; 9 unmergeable raw files (unknown command, unbound / doubly bound object, name clash, unused group) must end in an error or a warning naming the object.", DEV_NOTE + "; PAN-OS and NSX merges are not covered yet", DEV_TECH, "§7 C18"),
+ "C05": ("model_checking", "TLC enumerates pairs of Linux states (route sets with several routes per destination, default route switches; rulesets of table filter / mangle with policies, user chains; a spelling universe of 30 abstract rules in which neighbouring rules differ in one feature only). Every abstract ruleset is rendered in TWO spellings (Netspoc spelling for the target, iptables-save / `ip route show` spelling for the device); the real planner's `ip route add/del` commands and the emitted iptables-restore file are executed by Linux.tla; LinuxTrace.tla checks: final routes and ruleset equal the target, a difference of rulesets is reported iff the abstract rulesets differ, the kernel-spelled print of the final state compares as unchanged.", DEV_NOTE + "; the spelling tables of vlib/linux.py are an explicit, reviewed part of the trusted base", DEV_TECH, "§7 C05"),
+ "C18": ("model_checking", "Merge.tla defines Admissible(result, v4, v6, rawPre, rawApp) (completeness, per-part order, raw before Netspoc, APPEND between the last permitting Netspoc entry and the trailing denies). TLC enumerates all combinations of the parts (incl. no permit line, empty parts) for ASA ACLs (v4+v6+raw), IOS ACLs, Linux chains, PAN-OS rulebases (v4+v6+raw with <APPEND/>) and NSX policies (v4+raw, union by policy id); the script of the real planner on the EMPTY device is executed by the device specification and the resulting ACL / chain is checked with Admissible; 9 unmergeable raw files (unknown command, unbound / doubly bound object, name clash, unused group) must end in an error or a warning naming the object.", DEV_NOTE, DEV_TECH, "§7 C18"),
 })
 
 CHECKS.update({
